@@ -175,6 +175,8 @@ def _run(case):
     trafo_ix = {id(f): k for k, f in trafos.items()}
     progs = {}           # id(Loop) -> tag  (objects kept alive in `keep`)
     keep = []
+    pool = {}            # pool key -> Loop object that is handed to several register_program calls (object identity)
+    chpool = {}          # (awg, index, marker, trafo) -> hardware channel object reused across calls (case['chpool'])
     cblog = []
     upload_log = []
 
@@ -296,6 +298,14 @@ def _run(case):
     setup = HardwareSetup()
 
     def mk_channel(c):
+        if case.get('chpool'):
+            key = tuple(c)
+            if key not in chpool:
+                chpool[key] = mk_channel_fresh(c)       # a raising constructor is not cached
+            return chpool[key]
+        return mk_channel_fresh(c)
+
+    def mk_channel_fresh(c):
         a, idx, marker, tr = c
         if marker:
             return MarkerChannel(awgs[a], idx)
@@ -378,9 +388,16 @@ def _run(case):
                 setup.rm_channel(IDS[op['id']])
             elif k == 'register':
                 pd = op['prog']
-                program = _mk_program(dict(pd, _ids=IDS))
-                keep.append(program)
-                progs[id(program)] = pd['tag']
+                if pd.get('obj') is not None and pd['obj'] in pool:
+                    program = pool[pd['obj']]          # the very same Loop object again (its measurements may have
+                    if progs[id(program)] != pd['tag']:   # been dropped by an earlier register_program)
+                        raise RuntimeError('generator: pooled program object with two tags')
+                else:
+                    program = _mk_program(dict(pd, _ids=IDS))
+                    keep.append(program)
+                    progs[id(program)] = pd['tag']
+                    if pd.get('obj') is not None:
+                        pool[pd['obj']] = program
                 first = next(program.get_depth_first_iterator())
                 chan_order = [id_index(c) for c in first.waveform.defined_channels]
                 kwargs = {}
@@ -393,7 +410,7 @@ def _run(case):
                 if op.get('update'):
                     kwargs['update'] = True
                 if op.get('cb', True):
-                    kwargs['run_callback'] = mk_cb(pd['tag'])
+                    kwargs['run_callback'] = mk_cb(op.get('cbtag', pd['tag']))
                 elif op.get('cb') is False:
                     kwargs['run_callback'] = 'not callable'
                 wired = []
@@ -524,7 +541,7 @@ def g_op(case, op, st):
         h = st['hint']
         meas = glist(lambda m: '(%s, %s)' % (gN(m[0]), g_wins(m[1:])), h['meas'])
         p = '(PG %s %s %s)' % (gN(op['prog']['tag']), glist(gN, h['chan_order']), meas)
-        cb = '(Some %s)' % gN(op['prog']['tag']) if op.get('cb', True) else 'None'
+        cb = '(Some %s)' % gN(op.get('cbtag', op['prog']['tag'])) if op.get('cb', True) else 'None'
         return '(ORegister %s %s %s %s %s)' % (gN(op['name']), p, cb, gbool(op.get('update', False)),
                                                glist(gN, h['awg_order']))
     if k == 'remove':
@@ -983,9 +1000,263 @@ def exhaustive_small(max_len, min_len=1):
     return out
 
 
+# ---------------------------------------------------------------------------------------------------------------------
+# Round 3: object identity.  A small pool of Loop objects is reused across register_program calls (the same object again
+# under the same name, under two names, a structurally equal but distinct twin), hardware channel objects are reused
+# (case['chpool']), and the wiring of a used channel id is changed *inside* the generators that keep participating
+# (other output position, another voltage transformation, an extra output or marker) between registration and
+# re-registration, so that the device set stays the same and only the uploaded tuples have to change.
+
+def inside_rewirings(awgs, chs, rng=None):
+    """all (or, with rng, one random) new wirings of a channel id that keep its set of generators:
+    one output moved to another index of the same generator, another transformation, an extra output / marker on a
+    generator it already uses, one of two outputs of a generator dropped"""
+    out = []
+    gens = sorted({s[0] for s in chs})
+    for k, s in enumerate(chs):
+        a, idx, marker, tr = s
+        n = awgs[a][1] if marker else awgs[a][0]
+        for j in range(n):
+            if j != idx and j != idx + n:
+                out.append(('move', chs[:k] + [[a, j, marker, tr]] + chs[k + 1:]))
+        if not marker:
+            for t in (0, 1, 2):
+                if t != tr:
+                    out.append(('trafo', chs[:k] + [[a, idx, False, t]] + chs[k + 1:]))
+        if sum(1 for x in chs if x[0] == a) > 1:
+            out.append(('dropone', chs[:k] + chs[k + 1:]))
+    for a in gens:
+        have = {(x[1], x[2]) for x in chs if x[0] == a}
+        for j in range(awgs[a][1]):
+            if (j, True) not in have:
+                out.append(('addmarker', chs + [[a, j, True, 0]]))
+        for j in range(awgs[a][0]):
+            if (j, False) not in have:
+                out.append(('addout', chs + [[a, j, False, 1]]))
+    if rng is not None:
+        return [rng.choice(out)] if out else []
+    return out
+
+
+def set_ch(cid, chs, allow=False, as_set=False):
+    arg = {'k': 'many', 'chs': [list(c) for c in chs]}
+    if as_set:
+        arg['as_set'] = True
+    return {'op': 'set_channel', 'id': cid, 'arg': arg, 'allow': allow}
+
+
+def identity_history(rng):
+    """register pooled program objects, change the wiring inside participating generators, register the SAME object
+    again (update / no update / other name / twin object / explicit measurements), arm, remove, clear"""
+    na = rng.choice([2, 2, 3])
+    awgs = [[rng.randint(2, 4), rng.randint(1, 3)] for _ in range(na)]
+    awgs[0][0] = rng.randint(3, 4)
+    if rng.random() < 0.3:
+        awgs[-1] = [1, 0]
+        awgs[0][0] = 4
+    masks = [[0, 0], [1, 0], [0, 1], [1, 1], [0, 0]]
+    t = Tracker(rng, awgs, masks, clean=False)
+    # wiring: four ids; 0 and 1 share generator 0 (so that outputs can be swapped), 1 and 2 span two generators
+    taken = set()
+
+    def alloc(a, tr=0):
+        for b in [a] + [x for x in range(na) if x != a]:
+            for j in range(awgs[b][0]):
+                if (b, j) not in taken:
+                    taken.add((b, j))
+                    return [b, j, False, tr]
+        raise RuntimeError('no free output')
+    wiring = {0: [alloc(0)], 1: [alloc(0, rng.choice([0, 1])), alloc(na - 1)], 2: [alloc(1, 2), [0, 0, True, 0]], 3: [alloc(1)]}
+    for cid, chs in wiring.items():
+        t.ops.append(set_ch(cid, chs, as_set=rng.random() < 0.3))
+        t.chans[cid] = [list(c) for c in chs]
+    for name, ms in [(0, [0]), (1, [1]), (2, [2, 3])]:
+        t.ops.append({'op': 'set_measurement', 'name': name, 'arg': {'k': 'many', 'masks': ms}, 'allow': False})
+        t.meas[name] = ms
+    # the pool: 2-3 program objects + a twin (same description, another object) of the first
+    descs = []
+    for k in range(rng.randint(2, 3)):
+        chans = sorted(rng.sample(range(4), rng.randint(1, 3)))
+        meas = [[n, rng.choice([0, 1, 2]), rng.choice([1, 2])] for n in rng.sample(range(3), rng.randint(0, 2))]
+        descs.append({'tag': 100 + k, 'obj': k, 'chans': chans, 'meas': meas, 'shape': rng.choice(['leaf', 'leaf', 'seq']),
+                      'rep': rng.choice([1, 2])})
+    descs.append(dict(descs[0], tag=100 + len(descs), obj=len(descs)))
+    cbn = [0]
+
+    def reg(name, d, update):
+        cbn[0] += 1
+        op = {'op': 'register', 'name': name, 'prog': dict(d), 'update': update, 'cbtag': 200 + cbn[0]}
+        if rng.random() < 0.15:
+            names = rng.sample(sorted(t.meas), rng.randint(0, 2))
+            op['explicit'] = [[n, [rng.choice([0, 1, 2])] * k, [rng.choice([1, 2])] * k]
+                              for n in names for k in [rng.choice([0, 1, 1, 2])]]
+        t.ops.append(op)
+        t.regs[name] = (tuple(d['chans']), tuple(m[0] for m in d['meas']))
+
+    def rewire():
+        used = sorted(t.used_chan_ids() & set(t.chans)) or sorted(t.chans)
+        r = rng.random()
+        both = [c for c in (0, 1) if c in t.chans and any(s[0] == 0 and not s[2] for s in t.chans[c])]
+        if r < 0.2 and len(both) == 2:
+            # swap the outputs of ids 0 and 1 on generator 0 (rm_channel first, as in the project's notebook, or allow)
+            i0 = next(k for k, s in enumerate(t.chans[0]) if s[0] == 0 and not s[2])
+            i1 = next(k for k, s in enumerate(t.chans[1]) if s[0] == 0 and not s[2])
+            n0, n1 = [list(s) for s in t.chans[0]], [list(s) for s in t.chans[1]]
+            n0[i0][1], n1[i1][1] = t.chans[1][i1][1], t.chans[0][i0][1]
+            if rng.random() < 0.5:
+                t.ops.append({'op': 'rm_channel', 'id': 1})
+                t.ops.append(set_ch(0, n0))
+                t.ops.append(set_ch(1, n1))
+            else:
+                t.ops.append(set_ch(0, n0, allow=True))
+                t.ops.append(set_ch(1, n1, allow=True))
+            t.chans[0], t.chans[1] = n0, n1
+            return
+        cid = rng.choice(used)
+        cand = inside_rewirings(awgs, t.chans[cid], rng)
+        if not cand:
+            return
+        kind, new = cand[0]
+        removed = rng.random() < 0.25
+        if removed:
+            t.ops.append({'op': 'rm_channel', 'id': cid})
+        t.ops.append(set_ch(cid, new, allow=removed or rng.random() < 0.8, as_set=rng.random() < 0.3))
+        t.chans[cid] = new
+
+    n = rng.randint(5, 11)
+    base = len(t.ops)
+    reg(rng.randrange(2), rng.choice(descs), False)
+    while len(t.ops) < base + n:
+        r = rng.random()
+        if r < 0.30:
+            rewire()
+            if t.regs and rng.random() < 0.75:
+                # re-register a registered name; mostly with the very object it was registered with
+                name = rng.choice(sorted(t.regs))
+                same = [d for d in descs if tuple(d['chans']) == t.regs[name][0]]
+                d = rng.choice(same) if same and rng.random() < 0.85 else rng.choice(descs)
+                reg(name, d, rng.random() < 0.9)
+        elif r < 0.50:
+            name = rng.choice(sorted(t.regs)) if t.regs and rng.random() < 0.6 else rng.randrange(3)
+            reg(name, rng.choice(descs), rng.random() < (0.8 if name in t.regs else 0.2))
+        elif r < 0.62:
+            t.op_named('arm')
+        elif r < 0.68:
+            t.op_named('run')
+        elif r < 0.74:
+            t.op_update()
+        elif r < 0.86:
+            t.op_named('remove')
+        elif r < 0.90:
+            t.op_clear()
+        else:
+            rewire()
+    c = {'kind': 'hist', 'stream': 'identity', 'awgs': awgs, 'ndacs': 2, 'masks': masks, 'ops': t.ops}
+    if rng.random() < 0.6:
+        c['chpool'] = True
+    return with_ids(rng, c)
+
+
+def targeted_identity():
+    """fixed shapes: same Loop object registered again after the wiring changed inside its generators"""
+    awgs = [[3, 2], [1, 0]]
+    base = {'kind': 'hist', 'stream': 'targeted-identity', 'awgs': awgs, 'ndacs': 2, 'masks': [[0, 0], [1, 0], [0, 0]]}
+    w = [set_ch(0, [[0, 0, False, 0]]), set_ch(1, [[0, 1, False, 0], [1, 0, False, 0]]),
+         {'op': 'set_measurement', 'name': 0, 'arg': {'k': 'many', 'masks': [0]}, 'allow': False},
+         {'op': 'set_measurement', 'name': 1, 'arg': {'k': 'many', 'masks': [1]}, 'allow': False}]
+    P = {'tag': 100, 'obj': 0, 'chans': [0, 1], 'meas': [[0, 0, 1], [1, 1, 1]], 'shape': 'leaf'}
+    P2 = dict(P, tag=101, obj=1)                       # structurally equal, distinct object
+    PA = {'tag': 102, 'obj': 2, 'chans': [0], 'meas': [[0, 0, 1]], 'shape': 'seq'}
+    n = [0]
+
+    def reg(name, d, u=False, **kw):
+        n[0] += 1
+        return dict({'op': 'register', 'name': name, 'prog': dict(d), 'update': u, 'cbtag': 200 + n[0]}, **kw)
+    arm, rem = (lambda k: {'op': 'arm', 'name': k}), (lambda k: {'op': 'remove', 'name': k})
+    swap = [{'op': 'rm_channel', 'id': 1}, set_ch(0, [[0, 1, False, 2], [0, 1, True, 0]]),
+            set_ch(1, [[0, 0, False, 0], [1, 0, False, 0]])]
+    hs = [
+        # the sync workflow with an unchanged program object: outputs swapped + transformation + marker
+        [reg(0, P)] + swap + [reg(0, P, True), arm(0), rem(0)],
+        [reg(0, P)] + swap + [reg(0, P2, True), arm(0)],
+        # one change at a time
+        [reg(0, P), set_ch(0, [[0, 2, False, 0]]), reg(0, P, True)],
+        [reg(0, P), set_ch(0, [[0, 0, False, 3]], allow=True), reg(0, P, True)],
+        [reg(0, P), set_ch(0, [[0, 0, False, 0], [0, 0, True, 0]], allow=True), reg(0, P, True), arm(0)],
+        [reg(0, P), set_ch(0, [[0, 0, False, 0], [0, 2, False, 1]], allow=True), reg(0, P, True)],
+        [reg(0, P), set_ch(1, [[0, -1, False, 0], [1, 0, False, 1]]), reg(0, P, True)],
+        [reg(0, PA), set_ch(0, [[0, 1, True, 0], [0, 2, False, 0]]), reg(0, PA, True), {'op': 'run', 'name': 0}],
+        # no wiring change: same object again (measurements were dropped by the first call), with / without update,
+        # with explicit measurements, under a second name, after removal, after clear
+        [reg(0, P), reg(0, P, True), arm(0)],
+        [reg(0, P), reg(0, P), rem(0)],
+        [reg(0, P), reg(0, P, True, explicit=[[0, [0], [1]], [1, [1], [1]]]), arm(0)],
+        [reg(0, P), reg(1, P), arm(1), rem(0), arm(1)],
+        [reg(0, P), reg(1, P2), set_ch(0, [[0, 2, False, 0]]), reg(0, P, True), reg(1, P, True), rem(1)],
+        [reg(0, P), rem(0), set_ch(0, [[0, 2, False, 1]]), reg(0, P)],
+        [reg(0, P), {'op': 'clear'}, set_ch(0, [[0, 2, False, 1]]), reg(0, P), reg(0, P2, True), reg(0, P, True)],
+        # a call that raises after it dropped the program's measurements (unknown measurement name), then again
+        [{'op': 'register', 'name': 0, 'prog': dict(P, meas=[[0, 0, 1], [3, 1, 1]]), 'update': False}, reg(0, dict(P, meas=[[0, 0, 1], [3, 1, 1]]))],
+        # the program moves inside AND the wiring of an id it no longer uses changes
+        [reg(0, P), set_ch(1, [[0, 2, False, 0]]), reg(0, PA, True), set_ch(0, [[0, 0, False, 1]], allow=True), reg(0, PA, True)],
+    ]
+    out = []
+    for h in hs:
+        for ids, chp in ((None, False), ([0, 1, 2, 3, 4, 5, 6, 7], True)):
+            c = dict(base)
+            if ids is not None:
+                c['ids'] = ids
+            if chp:
+                c['chpool'] = True
+            c['ops'] = [dict(o) for o in w] + [dict(o) for o in h]
+            out.append(c)
+    return out
+
+
+IDENT_WIRING = [
+    set_ch(0, [[0, 0, False, 0]]),
+    set_ch(1, [[0, 1, False, 0], [1, 0, False, 0]]),
+    {'op': 'set_measurement', 'name': 0, 'arg': {'k': 'many', 'masks': [0]}, 'allow': False},
+]
+
+
+def exhaustive_identity(max_len, min_len=1):
+    """ALL histories of min_len..max_len operations over an 11-letter alphabet whose registrations draw from a pool of
+    two Loop objects (P and its structurally equal twin P') on a 2-output + 1-marker generator and a 1-output one;
+    the wiring letters keep the set of generators of every id and only change position / transformation / marker"""
+    P = {'tag': 100, 'obj': 0, 'chans': [0, 1], 'meas': [[0, 0, 1]], 'shape': 'leaf'}
+    P2 = dict(P, tag=101, obj=1)
+    alpha = [
+        {'op': 'register', 'name': 0, 'prog': P, 'update': False},
+        {'op': 'register', 'name': 0, 'prog': P, 'update': True},
+        {'op': 'register', 'name': 0, 'prog': P2, 'update': True},
+        {'op': 'register', 'name': 1, 'prog': P, 'update': True},
+        {'op': 'remove', 'name': 0}, {'op': 'clear'}, {'op': 'arm', 'name': 0},
+        set_ch(0, [[0, 0, False, 2]], allow=True),                          # another transformation
+        set_ch(0, [[0, 1, False, 0]], allow=True),                          # other position (shared with id 1)
+        set_ch(0, [[0, 0, False, 0], [0, 0, True, 0]], allow=True),         # extra marker
+        set_ch(1, [[0, 0, False, 1], [1, 0, False, 0]], allow=True),        # id 1 takes the position of id 0
+    ]
+    out = []
+    for n in range(min_len, max_len + 1):
+        for combo in itertools.product(range(len(alpha)), repeat=n):
+            ops = [dict(o) for o in IDENT_WIRING]
+            for t, i in enumerate(combo):
+                o = dict(alpha[i])
+                if o['op'] == 'register':
+                    o['prog'] = dict(o['prog'])
+                    o['cbtag'] = 200 + t
+                ops.append(o)
+            out.append({'kind': 'hist', 'stream': 'exhaustive-identity', 'awgs': [[2, 1], [1, 0]], 'ndacs': 1,
+                        'masks': [[0, 0], [0, 1]], 'ops': ops, 'chpool': True})
+    return out
+
+
 def gen_cases(rng, tier, ctx):
-    cases = targeted(rng)
+    cases = targeted(rng) + targeted_identity()
     n = {'quick': 1, 'thorough': 12}[tier]
+    for _ in range(130 * n):
+        cases.append(identity_history(rng))
     for _ in range(120 * n):
         cases.append(scenario_history(rng))
     for _ in range(150 * n):
@@ -996,8 +1267,11 @@ def gen_cases(rng, tier, ctx):
         cases.append(rnd_history(rng, rng.randint(5, 12), clean=False, malformed_rate=0.45))
     if tier == 'quick':
         ex = exhaustive(2) + exhaustive_small(2) + [c for c in exhaustive_small(3, 3) if rng.random() < 0.2]
+        ex += exhaustive_identity(2) + [c for c in exhaustive_identity(3, 3) if rng.random() < 0.08]
     else:
         cases.extend(exhaustive_small(4))          # complete: 11 110 histories
+        cases.extend(exhaustive_identity(3))       # complete: 1 463 histories
+        cases.extend(c for c in exhaustive_identity(4, 4) if rng.random() < 0.35)
         ex = exhaustive(3)
         ex += [c for c in exhaustive(4)[len(ex):] if rng.random() < 0.25]      # length-4 histories, sampled 1:4
         for _ in range(600):
